@@ -72,14 +72,14 @@ struct hresp { int used; char kind[16]; size_t size; struct MHD_Response *obj; i
 static struct hresp hr[MAXRESP];
 
 static void out (const char *fmt, ...)
-{ va_list ap; va_start (ap, fmt); vprintf (fmt, ap); va_end (ap); putchar ('\n'); }
+{ va_list ap; flockfile (stdout); va_start (ap, fmt); vprintf (fmt, ap); va_end (ap); putchar ('\n'); funlockfile (stdout); }
 
 /* ------------------------------------------------- allocation failure */
 void *__real_malloc (size_t n);
 void *__real_calloc (size_t a, size_t b);
-static int lib_ctx;          /* 1 while library code runs on behalf of an API call */
-static int in_add;           /* 1 inside MHD_add_connection() */
-static int in_loop;          /* 1 inside an event-loop round */
+static __thread int lib_ctx; /* 1 while library code runs on behalf of an API call (per thread) */
+static __thread int in_add;  /* 1 inside MHD_add_connection() */
+static __thread int in_loop; /* 1 inside an event-loop round */
 static long fail_k;          /* >0: countdown */
 static int fail_site;        /* class to fail next (0 none) */
 static int fired_site;       /* class of the allocation that was failed (0 none) */
@@ -117,7 +117,11 @@ static void report_fired (void)
 /* ------------------------------------------------- descriptor accounting */
 static int parked[MAXC * 2]; static int nparked;
 static int devnull = -1;
+static pthread_mutex_t fd_mx = PTHREAD_MUTEX_INITIALIZER;
+static int close_locked (int fd);
 int close (int fd)
+{ int r; pthread_mutex_lock (&fd_mx); r = close_locked (fd); pthread_mutex_unlock (&fd_mx); return r; }
+static int close_locked (int fd)
 {
   int c, i;
   for (i = 0; i < nparked; i++)
@@ -529,6 +533,7 @@ int main (void)
     else if (! strcmp (op, "epoll-fail")) { epoll_fail_next = 1; fail_site = 0; out ("ok"); }
     else if (! strcmp (op, "stop")) stop_daemon ();
     else if (! strcmp (op, "alloc-fail-off")) { fail_k = 0; fail_site = 0; epoll_fail_next = 0; out ("ok"); }
+    else if (! strcmp (op, "defaults")) out ("defaults limit=%u pool=%zu", hd->connection_limit, hd->pool_size);
     else if (! strcmp (op, "mark")) out ("mark %s", l.n > 1 ? l.w[1] : "-");
     else out ("bad-op");
     out ("--");
